@@ -569,7 +569,7 @@ def gen_trace(rng, tier='quick', crit_names=(), arm=None, targets=()):
 
     n_callers = rng.choices([1, 2, 3, 4], weights=[0.3, 0.35, 0.25, 0.1])[0]
     ctx = dict(
-        valkind=rng.choices(['int', 'Fraction', 'float', 'mixed', 'nd'], weights=[0.5, 0.14, 0.14, 0.14, 0.08])[0],
+        valkind=rng.choices(['int', 'Fraction', 'float', 'mixed', 'nd'], weights=[0.46, 0.14, 0.14, 0.14, 0.12])[0],
         p_sym=rng.choice([0, 0, 0.1, 0.25]),
         pools=pools,
         shared_by_alg={}, shared_syms={}, regs_by_alg={},
